@@ -104,6 +104,7 @@ def check(ctx):
              "strings, D6 subscripted methods, D8, D12 complex reaching max/min/int")
     scope = build_scope(ctx)
     ctx.floor("scope", len(scope), 250)
+    transfer_fields_exist(ctx)
     # the outline is also changed through the Frame API (attach/detach/setUnder with its own loop check): same refusal duty
     FrameC = ctx.cls("framing", "Frame")
     for mn in ("attach", "detach", "checkLoop", "setUnder", "resolveOverLinks"):
@@ -339,3 +340,31 @@ def complex_flow(repo, fns):
                                                            "converts); %s() of a complex raises TypeError instead of a parse error "
                                                            "(sibling clauses wrap the value in abs())" % (call_name(x), call_name(n))))
     return out
+
+
+def transfer_fields_exist(ctx):
+    """Builder.prepareSrcDstFields hands buildInit (and the put/copy/set builders) field lists it has made sure exist: the
+    callers index the shares with them (`source[sf]`) without a check of their own"""
+    from ..rules import path_condition, formula_implies_f, formula_of
+    ctx.rule("T2-fields", "prepareSrcDstFields / prepareDataDstFields: every field name returned exists in its share afterwards "
+             "(`share[field] = ..` whenever `field not in share`)")
+    B = ctx.cls("building", "Builder")
+    for mn, pairs in (("prepareSrcDstFields", (("srcFields", "src"), ("dstFields", "dst"))),
+                      ("prepareDataDstFields", (("dstFields", "dst"),))):
+        f = B.own_method(mn)
+        V = FuncView(ctx, f)
+        for lst, share in pairs:
+            loops = [n for n in V.cfg.nodes if n.kind == "for" and src(V.sym(n.ast.iter, n)) == lst and isinstance(n.ast.target, ast.Name)]
+            ok = False
+            for lp in loops:
+                var = lp.ast.target.id
+                body = {b.id for b in V.body_nodes(lp.ast)}
+                for n in V.cfg.nodes:
+                    if n.id in body and isinstance(n.ast, ast.Assign) and any(
+                            isinstance(t, ast.Subscript) and dotted(t.value) == share and dotted(t.slice) == var for t in n.ast.targets):
+                        pc = path_condition(V, n)
+                        if formula_implies_f(formula_of("%s not in %s" % (var, share)), pc):
+                            ok = True
+            ctx.check(ok, "T2-fields", f, "%s: for field in %s: if field not in %s: %s[field] = .." % (mn, lst, share, share),
+                      "the builders read and write the shares with these field names right away (buildInit: `source[sf]`): a field "
+                      "that was only warned about makes Builder.build raise KeyError, which is none of its documented errors")
